@@ -18,3 +18,4 @@ def run(chk):
     clones.rule_clones(chk, 'N1', select=lambda s: bool(_re.search(r'gcm|ccm|pon|docsis', s)), floor=20)
     clones.rule_const_width(chk, 'N2', floor=100)
     clones.rule_threshold_tests(chk, 'N3', floor=20)
+    clones.rule_defuse(chk, 'D1', 'D2', ('aead',), floor=50)
